@@ -87,7 +87,9 @@ func runJpgo(bin string, args []string, stdin []byte, pieces int) jpRun {
 
 var c19BadExprs = []string{"`\"a\tb\"`", "`\"line\nbreak\"`", "\"a\tb\"", "a.", "a[", "a b", "[?", "a ||", "{a:", "f(a b)", "&a", "a[0:1:2:3]", "@(x)", "#", "a#", "'abc", "`{`", "\"\\x\"", "=", "a = b", "", " ", "é", "[0", "a..b", ")", "a)", "[a", "*.[", "a[99999999999999999999]",
 	// white space that is not JMESPath white space (space, tab, LF, CR), at the ends of an otherwise valid expression: nothing may "repair" it
-	"\va", "a\f", "\u00a0a", "a\u00a0", "\u3000a\u3000", "a.b\u0085", "\u2028a", "s\u2029", "\ufeffa", "n\u200b", "\u1680arr", "\u2000a\u2000", "\fa.b[0]\v", "\u2003sort(arr)", "arr[0]\u205f", "\x1fa", "a\x7f"}
+	"\va", "a\f", "\u00a0a", "a\u00a0", "\u3000a\u3000", "a.b\u0085", "\u2028a", "s\u2029", "\ufeffa", "n\u200b", "\u1680arr", "\u2000a\u2000", "\fa.b[0]\v", "\u2003sort(arr)", "arr[0]\u205f", "\x1fa", "a\x7f",
+	// words that are nearly identifiers (a leading digit, a dash, a dot at the end, a non-ASCII letter): no short cut may take them for a member name
+	"2fa", "0", "1a", "9_", "007", "1e5", "0x10", "2fa.b", "a.2fa", "a-b", "a.b.", "-a", "n\u00e9", "\u00e9", "a$", "$a", "a.b-c", "1", "00", "1_000"}
 
 var c19Inputs = []struct {
 	name  string
@@ -163,6 +165,7 @@ var c19Inputs = []struct {
 	{"trailing comma", `[1, 2,]`, false},
 	{"NaN", `NaN`, false},
 	{"bare word", `nul`, false},
+	{"members named like numbers and near-identifiers", `{"2fa": "on", "0": "zero", "1a": 1, "9_": 2, "007": "bond", "1e5": 3, "0x10": 4, "a-b": 5, "-a": 6, "n\u00e9": 7, "a$": 8, "1": [1], "00": {}, "a": {"2fa": true, "b": {}}, "s": "x", "n": 1}`, true},
 	{"object followed by a stray closing brace", `{"a": 1}}`, false},
 	{"array followed by a stray closing bracket", `[1, 2]]`, false},
 	{"string followed by a stray closing brace", `"s" }`, false},
@@ -346,6 +349,11 @@ func c19(r *mon.Run) {
 				lib = apiSearch(expr, doc)
 			}
 			expectOK := inputOK && !lib.Panicked && lib.Err == nil
+			if kind == "invalid expression" {
+				// (these strings are no sentences of the grammar whatever the library's Search makes of them: the property speaks of
+				// invalid expressions, not of expressions the library happens to reject)
+				expectOK = false
+			}
 			if expectOK {
 				if _, merr := json.Marshal(lib.V); merr != nil {
 					expectOK = false
